@@ -6,6 +6,10 @@ from ..gen import KEY_POOL, PREFIX, hx, rng_for
 
 MAGIC = b"\x57\xfb\x80\x8b"
 
+# "each stream ends with exactly one terminator": for a range stream served over the etcd Watch API the terminator is the
+# `canceled` / eof answer of the watch server - one per watch (KB.OrderC05.watch_forgotten_under_the_lookup_lock)
+EXTRA_PROP_MODULES = [("KB.Props.OrderC05", "KB.OrderC05")]
+
 
 def enc(k, r):
     return MAGIC + k + b"$" + struct.pack(">Q", r)
